@@ -24,7 +24,7 @@ TRUSTED_BASE = [
     'extraction: Require Extraction + ExtrOcamlBasic only (bool, option, unit, list, prod, sumbool, sumor mapped; andb/orb inlined); nat, positive, Z stay Coq datatypes',
     'OCaml 4.13.1 ocamlfind ocamlopt; coq/extract/driver.ml (s-expression reader/printer)',
     'Python harness (generators, canonicalisation, comparison, shrinking)',
-    'Python floats without NaN satisfy the Val laws under <=, min, max, unary minus (assumed, not proved)',
+    'Python floats = IEEE binary64, round-to-nearest-even (validated by harness/float_check.py); that they form a Val up to the sign of zero and satisfy SubNeg / SignLaws / DiffLaws is proved in FloatVal.v / FloatLaws.v (Props/FloatInstance.v), which rest on the real-number axioms of the standard library (sig_forall_dec, sig_not_dec, functional_extensionality_dep, classic) through Flocq; the property files C01-C20 do not import them',
 ]
 
 
